@@ -33,6 +33,7 @@ def label_hook(I, p, fr, t, args):
 
 
 def fold(ctx, key, args, hooks=(), **kw):
+    """kw: max_depth, max_paths, max_steps, type_env (generic parameter -> ADT for generic workspace functions)"""
     kw.setdefault("max_depth", 14)
     I = interp.Interp(ctx.fx, hooks=[docmodel.doc_hook, label_hook] + list(hooks), **kw)
     return I, I.run(ctx.fx.fn(key), args)
